@@ -99,7 +99,10 @@ func runConc(s ConcSpec, watchdog time.Duration) (*rec.Trace, ConcResult) {
 			for i := 0; i < s.TxnsPer; i++ {
 				kind := s.Profile
 				if kind == "mixed" {
-					kind = pick(r, "rmw", "skew", "blind", "scan", "abandon", "rmw", "reader")
+					kind = pick(r, "rmw", "skew", "blind", "scan", "abandon", "rmw", "reader", "wr")
+				}
+				if kind == "rmw" && r.Intn(4) == 0 {
+					kind = "wr"
 				}
 				if kind == "reader" && w != 1 && s.Profile == "reader" {
 					kind = pick(r, "rmw", "blind", "blind")
@@ -123,6 +126,22 @@ func runConc(s ConcSpec, watchdog time.Duration) (*rec.Trace, ConcResult) {
 						get(k) // read after own write: served from the buffer
 					}
 					pause()
+					countCommit(&res, c.Commit())
+				case "wr": // write first, then read the same key back (served from the buffer: no store read)
+					c.Begin(true)
+					k := 1 + r.Intn(s.NKeys)
+					if r.Intn(5) == 0 {
+						c.Put(k, 0)
+					} else {
+						c.Put(k, newv())
+					}
+					pause()
+					get(k)
+					pause()
+					if r.Intn(3) == 0 {
+						c.Put(k, newv())
+						get(k)
+					}
 					countCommit(&res, c.Commit())
 				case "skew": // read two keys, write the other one
 					c.Begin(true)
@@ -228,6 +247,70 @@ func runConc(s ConcSpec, watchdog time.Duration) (*rec.Trace, ConcResult) {
 	return tr, res
 }
 
+// runBirthday: one transaction reads N keys, another commits N other keys in between, then the
+// first one writes and commits. The key sets are disjoint, so the contract demands "ok"; with
+// N*N well above 2^32 this fails for any conflict fingerprint narrower than about 40 bits.
+// Only one representative Get/Put per key class is recorded (class 1 = keys read, class 2 =
+// keys written by the other transaction, class 3 = the final write): the classes are disjoint
+// sets, which is all the conflict rule looks at.
+func runBirthday(n int, seed int64) (*rec.Trace, ConcResult) {
+	res := ConcResult{ID: fmt.Sprintf("birthday-%d-%d", n, seed), Profile: "birthday"}
+	dir := scratch("bday")
+	defer os.RemoveAll(dir)
+	km := kvmap.New("plain", 3)
+	tr := &rec.Trace{}
+	cfg := CfgJSON{SkipListMaxLevel: 12, SkipListP: 0.5, MemtableByteThreshold: 1 << 30, ImmutableBuffer: 2,
+		DataBlockByteThreshold: 4096, L0TargetNum: 4, LevelRatio: 4}
+	st, err := dbx.Open(dir, cfg.Config(), tr, km, true)
+	if err != nil {
+		res.Watchdog = "open: " + err.Error()
+		return tr, res
+	}
+	t1 := st.DB.Begin(true)
+	tr.Add(rec.Event{Ev: "BeginInv", W: 1, Upd: true})
+	tr.Add(rec.Event{Ev: "BeginResp", W: 1})
+	found := 0
+	for i := 0; i < n; i++ {
+		if _, ok := t1.Get(fmt.Sprintf("r:%d:%d", seed, i)); ok {
+			found++
+		}
+	}
+	v := 0
+	if found > 0 {
+		v = -2
+	}
+	tr.Add(rec.Event{Ev: "Get", W: 1, K: 1, V: v})
+	t2 := st.DB.Begin(true)
+	tr.Add(rec.Event{Ev: "BeginInv", W: 2, Upd: true})
+	tr.Add(rec.Event{Ev: "BeginResp", W: 2})
+	for i := 0; i < n; i++ {
+		_ = t2.Set(fmt.Sprintf("w:%d:%d", seed, i), []byte("x"))
+	}
+	tr.Add(rec.Event{Ev: "Put", W: 2, K: 2, V: 1, Res: "ok"})
+	tr.Add(rec.Event{Ev: "CommitInv", W: 2})
+	r2 := "ok"
+	if err := t2.Commit(); err != nil {
+		r2 = err.Error()
+	}
+	tr.Add(rec.Event{Ev: "CommitResp", W: 2, Res: r2})
+	_ = t1.Set(fmt.Sprintf("z:%d", seed), []byte("y"))
+	tr.Add(rec.Event{Ev: "Put", W: 1, K: 3, V: 2, Res: "ok"})
+	tr.Add(rec.Event{Ev: "CommitInv", W: 1})
+	r1 := "ok"
+	if err := t1.Commit(); err != nil {
+		r1 = "conflict"
+		res.Conflicts++
+	} else {
+		res.Commits++
+	}
+	tr.Add(rec.Event{Ev: "CommitResp", W: 1, Res: r1})
+	res.Commits++
+	st.Close()
+	res.Events = tr.Len()
+	res.DBFiles = 1
+	return tr, res
+}
+
 func countCommit(res *ConcResult, r string) {
 	switch r {
 	case "ok":
@@ -247,10 +330,26 @@ func cmdConc(args []string) int {
 	only := fs.Int("only", -1, "run only scenario i")
 	wd := fs.Duration("watchdog", 60*time.Second, "per-scenario watchdog")
 	perturb := fs.Int("perturb", 2, "0..3: seeded random delays at hook points outside the short critical sections")
+	birthday := fs.Int("birthday", 0, "run only the fingerprint birthday scenario with this many keys per side")
 	_ = fs.Parse(args)
 	mustMkdir(*out)
 	if *perturb > 0 {
 		installPerturb(*seed, *perturb)
+	}
+	if *birthday > 0 {
+		tr, res := runBirthday(*birthday, *seed)
+		w, err := rec.NewWriter(join(*out, "traces.ndjson"))
+		if err != nil {
+			fmt.Fprintln(os.Stderr, err)
+			return 2
+		}
+		w.WriteTrace(tr.Snapshot())
+		_ = w.Close()
+		writeJSON(join(*out, "summary.json"), map[string]any{
+			"traces": w.Traces, "events": w.Events, "offsets": w.Offsets, "workers": 2, "keys": 3,
+			"results": []ConcResult{res}, "specs": []ConcSpec{{ID: res.ID, Profile: "birthday", Workers: 2, NKeys: 3}},
+		})
+		return 0
 	}
 	var specs []ConcSpec
 	for i := 0; i < *n; i++ {
